@@ -107,16 +107,24 @@ Definition mismatch (k : c20case) : list N :=
 (* S.Delete / S.Delete1 / SRem: why did a name survive?
    201/202/206: there is exactly one list (the call S.Delete(list),
                 S.Delete1(names...), SRem(s, list)) and nothing was removed;
-   203: several lists, and a name of the FIRST list survived;
-   204: a name of a later list survived (the receiver held it twice);
+   203: several lists, and a name of the FIRST list survived untouched (none of
+        its occurrences was removed: the loop skipped that list);
+   204: a name survived although an occurrence of it was removed (the receiver
+        held it more than once; slicesWithout drops the first occurrence only);
    205: anything else (something was lost or invented). *)
+Definition count (x : nat) (l : sl) : nat := length (filter (Nat.eqb x) l).
+
+(* a named state is still there although one of its occurrences was removed *)
+Definition removed_but_left (s r : sl) (x : nat) : bool :=
+  mem x r && Nat.ltb (count x r) (count x s).
+
 Definition delete_class (base : N) (s : sl) (ls : list sl) (r : sl) : N :=
   match ls with
   | [l] => if list_eqb r s then base
            else if every s r && existsb (fun x => mem x r) l then 204 else 205
   | l :: rest =>
     if negb (every s r) then 205
-    else if existsb (fun x => mem x r) (concat rest) then 204
+    else if existsb (removed_but_left s r) (concat ls) then 204
     else if existsb (fun x => mem x r) l then 203 else 205
   | [] => 205
   end%N.
